@@ -1,0 +1,25 @@
+//go:build verif
+
+package formula
+
+// Verification hooks (build tag "verif"). Function variables installed by the
+// conformance harness under /verif; nil means "off".
+var (
+	VerifScanHook    func(s *Scanner)
+	VerifResolveHook func(r *Runner, v Expression, res *interface{}, err *error) func()
+)
+
+func verifNop() {}
+
+func verifScanHook(s *Scanner) {
+	if VerifScanHook != nil {
+		VerifScanHook(s)
+	}
+}
+
+func verifResolveHook(r *Runner, v Expression, res *interface{}, err *error) func() {
+	if VerifResolveHook != nil {
+		return VerifResolveHook(r, v, res, err)
+	}
+	return verifNop
+}
